@@ -11,6 +11,12 @@ T_PATHS = 'bounded-exhaustive exploration of the row transition system (all row 
 T_HIST = 'explicit-state BFS over call histories on live objects with reflection snapshots'
 
 CHECKS = {
+    'C01': ("Token level: every abstract note of the stated alphabets (9 durations x 2-5 pitches x 8 accidentals x every signifier set of size <=2 from 37 signifiers; rests; chords) in "
+            "EVERY written variant (order, slot before/after duration, pitch, accidental, doubling) - each abstract note must have exactly one normal form, and every normal form must be "
+            "a fixed point of import-then-export through the plain route, the separator-stripping route and get_kern_from_ekern. Document level: all row sequences to depth 3/4 and all "
+            "<=2 deviations of a backbone, same differential fixed-point oracle.",
+            'Differential oracle, no reference model. Alphabet rules of DESIGN §2.7 (X i j Z only without accidental; W and w never together).',
+            'bounded-exhaustive enumeration of written variants and of row sequences with a differential fixed-point oracle', 'DESIGN.md §3 C01'),
     'C06': ("Every enabled row sequence up to depth 3-5 (data, barline, every split, every join, every single termination) for 1-4 spines, and for each resulting document every subset "
             "of spine ids (ascending, descending, duplicated, set, tuple), every subset of the header types present and every combination; each export must be string-identical to "
             "kernpy's own full export with the columns of the unselected spines (per the model's column->spine map) deleted and all-null lines dropped; the spine-type query must "
